@@ -186,4 +186,47 @@ theorem inv_init (sp : Spec) (e : List Nat) (d : Db) (hs : sp.Safe) (hd : ∀ r,
   have := hs.2.1
   omega
 
+-- ---------------------------------------------------------------- create-if-absent
+
+structure InvI (reads : Nat) (w : InmWriter) : Prop where
+  nullNone : w.nullSeen = none
+  done : ∀ b, w.st = .committed b → b = none
+
+theorem invI_step (reads : Nat) (new : List Nat) (d : Db) (w : InmWriter) (h : InvI reads w) :
+    InvI reads (stepInm reads true new d w).2 := by
+  unfold stepInm
+  cases hst : w.st with
+  | failed => simpa [hst] using h
+  | committed b => simpa [hst] using h
+  | running =>
+    simp only
+    by_cases h1 : w.pc < reads
+    · simp only [h1, if_true]
+      split
+      · exact ⟨h.nullNone, by intro b hb; simp at hb⟩
+      · exact ⟨h.nullNone, by intro b hb; simp [hst] at hb⟩
+    · simp only [h1, if_false]
+      by_cases h2 : (w.pc == reads) = true
+      · simp only [h2, if_true, Bool.true_and]
+        cases hr : d.row with
+        | none => exact ⟨by simp, by intro b hb; simp [hst] at hb⟩
+        | some r => exact ⟨by simpa using h.nullNone, by intro b hb; simp at hb⟩
+      · simp only [h2, Bool.false_eq_true, if_false]
+        rw [h.nullNone]
+        simp only
+        cases hr : d.row with
+        | none => exact ⟨by simp, by intro b hb; simp at hb; exact hb.symm⟩
+        | some r => exact ⟨by simp, by intro b hb; simp at hb⟩
+
+theorem invI_run (reads : Nat) (new : List Nat) (evs : List Ev) (s : Db × InmWriter) (h : InvI reads s.2) :
+    InvI reads (runInm reads true new s evs).2 := by
+  induction evs generalizing s with
+  | nil => exact h
+  | cons ev evs ih =>
+    simp only [runInm, List.foldl_cons]
+    apply ih
+    cases ev with
+    | a => exact invI_step reads new s.1 s.2 h
+    | env c => exact h
+
 end Pithos.CondProto
